@@ -56,6 +56,15 @@ def toB(v):
         return v != 0
     return z3.BoolVal(bool(v))
 def sgn(x, w): return x - (1 << w) if x >> (w - 1) else x
+def as_bool01(t):
+    """Bool for integer values known to be 0/1 (zero-extended booleans)"""
+    if isinstance(t, int): return z3.BoolVal(bool(t)) if t in (0, 1) else None
+    if is_bool(t): return t
+    if is_sym(t) and z3.is_app_of(t, z3.Z3_OP_ITE):
+        x, y = as_bool01(t.arg(1)) if not z3.is_int_value(t.arg(1)) else (z3.BoolVal(bool(t.arg(1).as_long())) if t.arg(1).as_long() in (0, 1) else None), \
+               as_bool01(t.arg(2)) if not z3.is_int_value(t.arg(2)) else (z3.BoolVal(bool(t.arg(2).as_long())) if t.arg(2).as_long() in (0, 1) else None)
+        if x is not None and y is not None: return z3.If(t.arg(0), x, y)
+    return None
 
 STATS = {'feas_s': 0.0, 'feas_q': 0}
 
@@ -416,8 +425,13 @@ class Interp:
         op = I.op
         V = lambda o, ty=None: s.val(o, regs, ty)
         if op in ('fadd', 'fsub', 'fmul', 'fdiv', 'frem'):
-            if not isinstance(rt(I.ty), FpT) or rt(I.ty).k not in ('double', 'float'): raise Unsupported('fp type ' + repr(I.ty))
-            regs[I.dest] = s.fbin(op, V(I.a, I.ty), V(I.b, I.ty), st)
+            if not isinstance(rt(I.ty), FpT) or rt(I.ty).k not in ('double', 'float', 'x86_fp80'): raise Unsupported('fp type ' + repr(I.ty))
+            a_, b_ = V(I.a, I.ty), V(I.b, I.ty)
+            if rt(I.ty).k == 'x86_fp80':
+                # long double: only concrete values, computed in double precision (libstdc++'s generate_canonical uses it for 2^32-scale factors that are exact in double); recorded as an assumption
+                if is_sym(a_) or is_sym(b_): raise Unsupported('symbolic long double arithmetic')
+                st.events.append(('assume', 'x86_fp80 arithmetic on concrete values evaluated in double precision'))
+            regs[I.dest] = s.fbin(op, a_, b_, st)
         elif op == 'fneg':
             a = V(I.a, I.ty); regs[I.dest] = -a
         elif op == 'freeze': regs[I.dest] = V(I.a, I.ty)
@@ -471,11 +485,11 @@ class Interp:
                 import struct as _st
                 a = _st.unpack('<f', _st.pack('<f', a))[0]
             elif op == 'fptrunc': raise Unsupported('fptrunc of symbolic value')
-            if rt(I.ty).k not in ('double', 'float'): raise Unsupported('long double arithmetic')
+            if rt(I.ty).k not in ('double', 'float', 'x86_fp80') or (rt(I.ty).k == 'x86_fp80' and is_sym(a)): raise Unsupported('long double arithmetic')
             regs[I.dest] = a
         elif op in ('sitofp', 'uitofp'):
             a = V(I.a, I.sty)
-            if rt(I.ty).k not in ('double', 'float'): raise Unsupported('long double arithmetic')
+            if rt(I.ty).k not in ('double', 'float', 'x86_fp80') or (rt(I.ty).k == 'x86_fp80' and is_sym(a)): raise Unsupported('long double arithmetic')
             if is_sym(a):
                 if is_bool(a): regs[I.dest] = z3.If(a, z3.RealVal(-1 if op == 'sitofp' else 1), z3.RealVal(0))    # i1 true is -1 as a signed value
                 else: regs[I.dest] = toR(a)
@@ -597,6 +611,11 @@ class Interp:
                 if op == 'xor': return z3.Xor(a, b)
                 if op in ('add', 'sub'): return z3.Xor(a, b)
                 raise Unsupported('i1 op ' + op)
+            if op in ('and', 'or', 'xor'):
+                ba, bb = as_bool01(a), as_bool01(b)
+                if ba is not None and bb is not None:
+                    r = z3.And(ba, bb) if op == 'and' else z3.Or(ba, bb) if op == 'or' else z3.Xor(ba, bb)
+                    return z3.If(r, z3.IntVal(1), z3.IntVal(0))
             a = toI(a, w); b = toI(b, w)
             if op in ('add', 'sub', 'mul'): st.events.append(('assume', 'symbolic integer %s does not wrap' % op))
             if op == 'add': return a + b
@@ -728,7 +747,7 @@ class Interp:
         if fname in s.mod.funcs:
             w0 = st.writes; n0 = len(st.pc); ne0 = len(s.ended); ev0 = len(st.events)
             res = s.run(fname, args, st, depth + 1)
-            if s.merge_pure and len(res) > 1 and len(s.ended) == ne0 and all(s2.writes == w0 and len(s2.events) == ev0 and s2.brk == st.brk for s2, _ in res) \
+            if s.merge_pure and not isinstance(rt(I.rty), (PtrT, FnT)) and len(res) > 1 and len(s.ended) == ne0 and all(s2.writes == w0 and len(s2.events) == ev0 and s2.brk == st.brk for s2, _ in res) \
                and all(isinstance(rv, float) or is_sym(rv) or isinstance(rv, int) for _, rv in res):
                 isfp = any(isinstance(rv, float) or (is_sym(rv) and z3.is_real(rv)) for _, rv in res)
                 acc = None
